@@ -2,6 +2,7 @@ package zzverif
 
 import (
 	"fmt"
+	"sort"
 	"strings"
 
 	"verif/sim/simrt"
@@ -26,6 +27,11 @@ type ProgOpts struct {
 	XPath    bool // allow XPath conditions
 	OrEarlyEnd bool // allow inclusive branches that end in their own end event
 	StuckXor bool // allow exclusive gateways with no default and possibly no true condition
+	ActivityDefault bool // allow default flows on activities (known-finding trigger)
+	SubInLoop bool // allow sub-processes inside loops (known-finding trigger)
+	ForkInOr bool // allow forking blocks inside inclusive branches (known-finding trigger)
+	OrInAnd bool // allow inclusive joins inside parallel branches (known-finding trigger)
+	ActivityMultiFork bool // allow several true conditional flows leaving an activity (known-finding trigger)
 }
 
 type progGen struct {
@@ -35,6 +41,10 @@ type progGen struct {
 	vars  map[string]any
 	tasks int
 	desc  strings.Builder
+	tags  map[string]bool
+	inLoop int
+	inOr  int
+	inAnd int
 }
 
 func (pg *progGen) newTask(g *Graph) *Node {
@@ -74,6 +84,27 @@ func (pg *progGen) block(g *Graph, from string, cond *Cond, outPos int, depth in
 		kinds = append(kinds, pg.opts.Kinds...)
 	}
 	kind := kinds[pg.d.N(len(kinds))]
+	if kind == "sub" && pg.inLoop > 0 {
+		if !pg.opts.SubInLoop {
+			kind = "task"
+		} else {
+			pg.tags["sub-in-loop"] = true
+		}
+	}
+	if pg.inOr > 0 && (kind == "and" || kind == "or" || kind == "condtask") {
+		if !pg.opts.ForkInOr {
+			kind = "task"
+		} else {
+			pg.tags["fork-in-or"] = true
+		}
+	}
+	if pg.inAnd > 0 && (kind == "or" || kind == "condtask") {
+		if !pg.opts.OrInAnd {
+			kind = "task"
+		} else {
+			pg.tags["or-in-and"] = true
+		}
+	}
 	d := pg.defs
 	switch kind {
 	case "task":
@@ -143,7 +174,9 @@ func (pg *progGen) block(g *Graph, from string, cond *Cond, outPos int, depth in
 		nb := 2 + pg.d.N(2)
 		pg.desc.WriteString("and[ ")
 		for i := 0; i < nb; i++ {
+			pg.inAnd++
 			last, _ := pg.block(g, a.ID, nil, -1, depth+1)
+			pg.inAnd--
 			g.connect(d, last, j.ID, nil, -1)
 			pg.desc.WriteString("| ")
 		}
@@ -174,7 +207,9 @@ func (pg *progGen) block(g *Graph, from string, cond *Cond, outPos int, depth in
 			} else {
 				pg.desc.WriteString("default: ")
 			}
+			pg.inOr++
 			last, ff := pg.block(g, o.ID, c, -1, depth+1)
+			pg.inOr--
 			if isDef {
 				o.Default = ff
 			}
@@ -196,7 +231,9 @@ func (pg *progGen) block(g *Graph, from string, cond *Cond, outPos int, depth in
 		f := g.connect(d, from, lm.ID, cond, outPos)
 		count := 1 + pg.d.N(3)
 		fmt.Fprintf(&pg.desc, "loop*%d( ", count)
+		pg.inLoop++
 		last, _ := pg.block(g, lm.ID, nil, -1, depth+1)
+		pg.inLoop--
 		tc := pg.newTask(g)
 		iv := "i_" + tc.ID
 		tc.Results = append(tc.Results, iv)
@@ -215,15 +252,32 @@ func (pg *progGen) block(g *Graph, from string, cond *Cond, outPos int, depth in
 		f := g.connect(d, from, t.ID, cond, outPos)
 		j := g.addNode(&Node{ID: d.fresh("CJ"), Kind: "or"})
 		nb := 1 + pg.d.N(3)
-		hasDefault := true
-		total := nb + 1
+		// a default flow on an activity is a known-finding trigger (the engine ignores the attribute)
+		hasDefault := pg.opts.ActivityDefault && pg.d.N(2) == 1
+		total := nb
+		if hasDefault {
+			total++
+		}
 		defPos := pg.d.N(total)
 		fmt.Fprintf(&pg.desc, "condtask%s[ ", t.ID)
+		anyTrue := false
 		for pos := 0; pos < total; pos++ {
 			var c *Cond
 			isDef := hasDefault && pos == defPos
 			if !isDef {
 				c = pg.cond()
+				if !hasDefault && pos == total-1 && !anyTrue && !pg.condHolds(c) {
+					// without a default at least one condition must hold (otherwise BPMN prescribes an exception)
+					pg.vars[c.Var] = c.Want
+				}
+				if anyTrue && pg.condHolds(c) {
+					if pg.opts.ActivityMultiFork {
+						pg.tags["activity-multi-fork"] = true
+					} else {
+						pg.vars[c.Var] = !c.Want
+					}
+				}
+				anyTrue = anyTrue || pg.condHolds(c)
 				fmt.Fprintf(&pg.desc, "%s=%v: ", c.Var, pg.condHolds(c))
 			} else {
 				pg.desc.WriteString("default: ")
@@ -231,6 +285,9 @@ func (pg *progGen) block(g *Graph, from string, cond *Cond, outPos int, depth in
 			last, ff := pg.block(g, t.ID, c, -1, depth+1)
 			if isDef {
 				t.Default = ff
+				if anyTrue || pos < total-1 {
+					pg.tags["activity-default"] = true
+				}
 			}
 			g.connect(d, last, j.ID, nil, -1)
 			pg.desc.WriteString("| ")
@@ -257,6 +314,7 @@ type Program struct {
 	Defs *Definitions   `json:"defs"`
 	Vars map[string]any `json:"vars"`
 	Desc string         `json:"desc"`
+	Tags []string       `json:"tags,omitempty"`
 }
 
 // GenProgram draws a block-structured process.
@@ -264,7 +322,7 @@ func GenProgram(d *Draw, opts ProgOpts) *Program {
 	defs := &Definitions{}
 	g := &Graph{ID: "P1", Executable: true}
 	defs.Procs = []*Graph{g}
-	pg := &progGen{d: d, defs: defs, opts: opts, vars: map[string]any{}}
+	pg := &progGen{d: d, defs: defs, opts: opts, vars: map[string]any{}, tags: map[string]bool{}}
 	st := g.addNode(&Node{ID: "Start", Kind: "start"})
 	n := 1 + d.N(2)
 	cur := st.ID
@@ -274,5 +332,10 @@ func GenProgram(d *Draw, opts ProgOpts) *Program {
 	e := g.addNode(&Node{ID: "End", Kind: "end"})
 	g.connect(defs, cur, e.ID, nil, -1)
 	g.index()
-	return &Program{Defs: defs, Vars: pg.vars, Desc: strings.TrimSpace(pg.desc.String())}
+	var tags []string
+	for t := range pg.tags {
+		tags = append(tags, t)
+	}
+	sort.Strings(tags)
+	return &Program{Defs: defs, Vars: pg.vars, Desc: strings.TrimSpace(pg.desc.String()), Tags: tags}
 }
